@@ -201,6 +201,19 @@ def showTok (C : Codec α) : Tok α → String
   | .ident s => "i:" ++ s | .lp => "(" | .rp => ")" | .comma => "," | .eqs => "="
   | .str s => "s:" ++ s | .num v => "n:" ++ C.show_ v | .nat n => s!"k:{n}"
 
+/-- `_can_be_written_as_keyword` on ASCII names (the only ones the driver is asked about: NFKC leaves
+them alone): an identifier that is not a reserved word of Python 3.12 -/
+def pyKeywords : List String :=
+  ["False", "None", "True", "and", "as", "assert", "async", "await", "break", "class", "continue", "def",
+   "del", "elif", "else", "except", "finally", "for", "from", "global", "if", "import", "in", "is", "lambda",
+   "nonlocal", "not", "or", "pass", "raise", "return", "try", "while", "with", "yield"]
+
+def asciiKeywordName (s : String) : Bool :=
+  match s.toList with
+  | [] => false
+  | c :: cs =>
+    (c.isAlpha || c == '_') && cs.all (fun d => d.isAlphanum || d == '_') && !pyKeywords.contains s
+
 def hexDecode (s : String) : Option String :=
   let rec go : List Char → List UInt8 → Option (List UInt8)
     | [], acc => some acc.reverse
@@ -366,7 +379,9 @@ def handle [Inhabited α] (C : Codec α) (op : String) : P String := do
       pure s!"ok {bstr back} {" ".intercalate (ts.map (showTok C))}"
   | "renderpoint" => do
       let p ← parsePointW C
-      pure s!"ok {" ".intercalate ((renderPoint p).map (showTok C))}"
+      let showP : PTok α → String
+        | .tok t => showTok C t | .star2 => "**" | .lb => "{" | .rb => "}" | .colon => ":"
+      pure s!"ok {" ".intercalate ((renderPointWith asciiKeywordName p).map showP)}"
   | "mk" => do
       let ctor ← tok
       let r : R (Expr α) ← match ctor with
